@@ -162,6 +162,9 @@ func TestVerifC20(t *testing.T) {
 		{eps: []receive.Endpoint{ep("node-1"), ep("node-2"), ep("node-4"), ep("node-5")}, added: ep("node-3"), pos: 2, rf: 3, tenants: []string{"tenant", ""}, nser: 500},
 		{eps: []receive.Endpoint{ep("node-1")}, added: ep("node-0"), pos: 0, rf: 1, tenants: []string{"t"}, nser: 500},
 	}
+	if !fixedInputs("C20") {
+		fixed = nil
+	}
 	for i, c := range fixed {
 		msg, nt, classes := c20Check(c)
 		if msg != "" {
